@@ -40,8 +40,6 @@ int _vnadata_update_format_string(vnadata_internal_t *vdip)
     char *new_string = NULL;
     char *cur;
 
-    free((void *)vdip->vdi_format_string);
-    vdip->vdi_format_string = NULL;
     if (vdip->vdi_format_count != 0) {
 	if ((new_string = malloc(vdip->vdi_format_count *
 			(MAX_FORMAT + 1))) == NULL) {
@@ -62,7 +60,8 @@ int _vnadata_update_format_string(vnadata_internal_t *vdip)
 	    *cur++ = ',';
 	}
 	*cur = '\000';
-	vdip->vdi_format_string = new_string;
     }
+    free((void *)vdip->vdi_format_string);
+    vdip->vdi_format_string = new_string;
     return 0;
 }
